@@ -81,7 +81,7 @@ void harness(void)
             CHECK(od_dom.Offset == m + n, "object cursor advanced by the bytes written");
             CHECK(s->Buf.Cur == s->Buf.Start && s->Buf.Num == 0, "buffer flushed");
         }
-        COVER(m > 889 && !c, "beyond the size of the block buffer");
+        COVER(m > DS / 2 && !c, "deep inside a long transfer");
         COVER(m + n == dsz && c, "last byte of the domain written");
     }
 #else
@@ -105,7 +105,7 @@ void harness(void)
             CHECK(s->Obj == dom && s->Seg.Num == m + w && s->Seg.TBit == (uint8_t)(t ^ 1), "progress by exactly the bytes sent");
             CHECK(od_dom.Offset == m + w, "object cursor advanced by the bytes read");
         }
-        COVER(m > 889 && !c, "beyond the size of the block buffer");
+        COVER(m > DS / 2 && !c, "deep inside a long transfer");
         COVER(c && w < 7, "short last segment");
     }
 #endif
